@@ -1,4 +1,5 @@
 import Casket.Proofs.Reload
+import Casket.Proofs.ReloadSeq
 import Casket.Spec.Reload
 /-
 C07 — Reloading the configuration never drops or misroutes a request.   (PARTIAL)
@@ -80,24 +81,73 @@ theorem C07_failed_keeps_old (busy addrs : List Nat) (acts : List Act) :
 example : listenFails (run (M.init [3] [1]) [.begin 2 ⟨[1, 3], false⟩, .setup, .listen]) := by
   refine ⟨3, [], ?_, ?_, ?_, ?_⟩ <;> decide
 
+/-- **Model and judge agree on the sequential hand-over stream.**  For every starting configuration that is valid for the
+environment and EVERY sequence of operations of `c07.handover` — plain reloads and reloads with a request in flight, any
+configurations (valid, failing at setup or at any listen; addresses kept, added, dropped or reordered) — the observations of
+the protocol machine run under the sequential schedules satisfy every law of the judge `ReloadSpec.stepLaw`: valid ⇒ loaded,
+the new generation answers, one descriptor, the SAME socket for every kept address; invalid ⇒ nothing changed; the request in
+flight is answered completely by the old generation, the connection made while the old instance drains by the new one. -/
+theorem C07_model_verdict_ok (busy : List Nat) (c0 : Cfg) (hops : List HOp)
+    (hfree : ∀ a ∈ c0.addrs, busy.contains a = false) :
+    verdict busy c0 hops (handoverRun busy c0 hops) = "ok" := by
+  obtain ⟨h1, h2⟩ := start_ok (busy := busy) (c0 := c0) hfree
+  simp only [verdict, handoverRun, h1, runOps_check hops _ _ _ _ h2]
+
+example : ∀ a ∈ (⟨[1, 2], false⟩ : Cfg).addrs, ([3] : List Nat).contains a = false := by decide
+
+/-- **Hand-over is per address (and per kind of socket).**  A listen step that succeeds concerns one socket `x` — the TCP
+listener (`2a`) or the packet conn (`2a+1`) of one address: the new server for `x` gets a descriptor of the socket of `x`
+(when the old instance holds one, the very same socket) or opens its own; the descriptors, the socket identity and the
+ownership of every OTHER socket are untouched, and so is the old instance.  Together with `C07_descriptors_accounted` (every
+descriptor of socket `x` belongs to the listener for `x` of the current or of the starting instance, in every state of every
+schedule): nothing is ever handed over across addresses or kinds. -/
+theorem C07_handover_per_address (m : M) (x : Nat) (todo : List Nat) (hp : m.phase = .listening (x :: todo))
+    (hok : (step m .listen).phase = .listening todo) :
+    (∀ y, y ≠ x → (step m .listen).fds y = m.fds y ∧ (step m .listen).sock y = m.sock y ∧
+        (step m .listen).new.holds y = m.new.holds y) ∧
+    (step m .listen).new.holds x = true ∧ (step m .listen).cur = m.cur ∧
+    (m.cur.holds x = true → (step m .listen).sock x = m.sock x) :=
+  listen_per_address hp hok
+
+/-- a state in which a listen step takes over the old TCP listener of address 1 while a packet conn of address 2 is next -/
+example : (step (run (M.init [] [2, 5]) [.begin 2 ⟨[2, 5], false⟩, .setup]) .listen).phase = .listening [5] := by decide
+
+/-- **Model and judge agree on the mixed stream** (`c07.mixed`: servers with a TCP listener only, a packet conn only, or
+both, in any order): for every start valid for the environment and EVERY sequence of reloads, every observed socket has exactly
+one descriptor and is answered by the new generation when the new configuration names it, is closed otherwise, and nothing
+changes when the reload fails. -/
+theorem C07_mixed_model_verdict_ok (busy codes : List Nat) (c0 : Cfg) (cs : List Cfg)
+    (hfree : ∀ a ∈ c0.addrs, busy.contains a = false) :
+    mixedVerdict busy codes c0 cs (mixedRun busy codes c0 cs) = "ok" :=
+  mixed_verdict cs hfree
+
+/-- the mixed judge rejects a socket answered by the server of another address -/
+example : mixedStepLaw [18, 19] [2, 5] [(1, "1"), (1, "1")] (mixedCfg [⟨.t, 1⟩, ⟨.u, 2⟩] false) 2
+    { res := "ok", cells := [(2, "2:1+2:2"), (1, "2")], mis := true } = some "misrouted" := by decide
+
 /-! ### the judges are not vacuous (tests of the executable predicates on hand-made observations) -/
 
 /-- a reload that closes and rebinds the socket is rejected, -/
-example : stepLaw [3] { gen := 1, addrs := [1], prev := ⟨"ok", 1, 0, 1, 0, "1", "-", none, none⟩, next := 2 }
-    (.reload ⟨[1], false⟩) ⟨"ok", 1, 0, 2, 0, "2", "-", none, none⟩ = some "socket-rebound" := by decide
+example : stepLaw [3] { gen := 1, addrs := [1], prev := ⟨"ok", 1, 0, 1, 0, "1", "-", 1, none, none⟩, next := 2 }
+    (.reload ⟨[1], false⟩) ⟨"ok", 1, 0, 2, 0, "2", "-", 1, none, none⟩ = some "socket-rebound" := by decide
 
 /-- so is an old configuration answering after the reload returned, -/
-example : stepLaw [3] { gen := 1, addrs := [1], prev := ⟨"ok", 1, 0, 1, 0, "1", "-", none, none⟩, next := 2 }
-    (.reload ⟨[1], false⟩) ⟨"ok", 1, 0, 1, 0, "1", "-", none, none⟩ = some "after-return-not-new" := by decide
+example : stepLaw [3] { gen := 1, addrs := [1], prev := ⟨"ok", 1, 0, 1, 0, "1", "-", 1, none, none⟩, next := 2 }
+    (.reload ⟨[1], false⟩) ⟨"ok", 1, 0, 1, 0, "1", "-", 1, none, none⟩ = some "after-return-not-new" := by decide
 
 /-- a request in flight that is cut off, -/
-example : stepLaw [3] { gen := 1, addrs := [1], prev := ⟨"ok", 1, 0, 1, 0, "1", "-", none, none⟩, next := 2 }
-    (.straddle ⟨[1], false⟩) ⟨"ok", 1, 0, 1, 0, "2", "-", some "2", some "e:reset"⟩ = some "request-in-flight-dropped" := by
+example : stepLaw [3] { gen := 1, addrs := [1], prev := ⟨"ok", 1, 0, 1, 0, "1", "-", 1, none, none⟩, next := 2 }
+    (.straddle ⟨[1], false⟩) ⟨"ok", 1, 0, 1, 0, "2", "-", 1, some "2", some "e:reset"⟩ = some "request-in-flight-dropped" := by
   decide
 
 /-- a failed reload that leaves a descriptor behind, -/
-example : stepLaw [3] { gen := 1, addrs := [1], prev := ⟨"ok", 1, 0, 1, 0, "1", "-", none, none⟩, next := 2 }
-    (.reload ⟨[1, 3], false⟩) ⟨"err", 2, 0, 1, 0, "1", "-", none, none⟩ = some "failed-reload-changed-sockets" := by decide
+example : stepLaw [3] { gen := 1, addrs := [1], prev := ⟨"ok", 1, 0, 1, 0, "1", "-", 1, none, none⟩, next := 2 }
+    (.reload ⟨[1, 3], false⟩) ⟨"err", 2, 0, 1, 0, "1", "-", 1, none, none⟩ = some "failed-reload-changed-sockets" := by decide
+
+/-- a reload reported as failed, with the old instance still in the instance list and its second server still accepting,
+because the drain of the first one timed out, -/
+example : stepLaw [3] { gen := 1, addrs := [1, 2], prev := ⟨"ok", 1, 1, 1, 2, "1", "1", 1, none, none⟩, next := 2 }
+    (.longflight ⟨[1, 2], false⟩) ⟨"err", 1, 2, 1, 2, "2", "1", 2, none, some "1"⟩ = some "instance-list" := by decide
 
 /-- and, in a storm, a dropped request or one answered by the old configuration after the reload had returned. -/
 example : stormVerdict [⟨1, 2, 2, true⟩] [⟨3, 4, some 2⟩, ⟨5, 6, none⟩] = "bad:request-dropped:" := by decide
